@@ -322,7 +322,8 @@ Record CInv (roots : list node) (g : graph) (em : list node) : Prop := {
   c_roots : forall n, In n roots <-> In n (keys g) /\ pending n em = 0;
   c_roots_nodup : NoDup roots;
   c_order : before_ok em;
-  c_em_nodup : NoDup em
+  c_em_nodup : NoDup em;
+  c_em_nodes : forall n, In n em -> In n K
 }.
 
 Lemma cntf_pending roots g em n : CInv roots g em -> In n (keys g) -> cntf g n = pending n em.
@@ -411,6 +412,7 @@ Proof.
     + subst. eapply pend_in_zero; eauto.
     + eapply (c_order _ _ _ HI); eauto.
   - constructor; [exact Hrem|apply (c_em_nodup _ _ _ HI)].
+  - intros n [<-|Hn]; [exact HrK|apply (c_em_nodes _ _ _ HI); exact Hn].
 Qed.
 
 (* the loop never fails and ends with no roots *)
